@@ -218,6 +218,58 @@ class WbTimeoutInst(Base):
         return Mon()
 
 
+
+# ---------------------------------------------------------------------------------------------------------
+# SoC glue: interconnect + SoCController bus error counter, wired by the very statement of SoC.finalize
+
+class _SocGlue(Module):
+    """`SoC.finalize`:  if hasattr(ctrl, "bus_error") and hasattr(interconnect, "timeout"):
+                            comb += ctrl.bus_error.eq(interconnect.timeout.error)"""
+    def __init__(self, ic):
+        from litex.soc.integration.soc import SoCController
+        self.submodules.ic = ic
+        self.submodules.ctrl = ctrl = SoCController(with_reset=False, with_scratch=False, with_errors=True)
+        if hasattr(ctrl, "bus_error") and hasattr(ic, "timeout"):
+            self.comb += ctrl.bus_error.eq(ic.timeout.error)
+
+
+def _preload_counter(netlist, init, exclude_bits=()):
+    """Preload `bus_errors` (the widest register of the glue module; data widths of these instances are < 32)."""
+    regs = sorted(netlist.regs, key=lambda r: -r.nbits)
+    if regs and init:
+        netlist.set(regs[0], init)
+    netlist.settle()
+
+
+class SocMonitor:
+    """Base monitor of the interconnect on the interconnect's part of letter/outputs, plus: `bus_errors` equals
+    min(init + number of expiry events so far, 2^32-1), the events being recognised by the base monitor from port
+    observations (Wishbone: expiry cycles; AXI: cycles with a write and/or a read expiry -- one pulse as coded), and
+    (AXI) every slave sees the id/len/last of the owner of the respective direction."""
+    def __init__(self, base, nl, no, init, events, pay=None):
+        self.base, self.nl, self.no, self.init, self.events, self.pay = base, nl, no, init, events, pay
+        self.count = 0
+
+    def observe(self, letter, outs):
+        msg = self.base.observe(tuple(letter[:self.nl]), list(outs[:self.no]))
+        if msg:
+            return msg
+        exp = min(self.init + self.count, 2 ** 32 - 1)
+        if outs[-1] != exp:
+            return "bus_errors=%d, expected min(%d + %d timeout events, 2^32-1)" % (outs[-1], self.init, self.count)
+        self.count += self.events()
+        if self.pay:
+            n, k = self.pay
+            gw, gr = outs[self.no - 2], outs[self.no - 1]
+            pm = [letter[self.nl + 5 * i: self.nl + 5 * i + 5] for i in range(n)]
+            for j in range(k):
+                see = list(outs[self.no + 5 * j: self.no + 5 * j + 5])
+                want = list(pm[gw][0:3]) + list(pm[gr][3:5])
+                if see != want:
+                    return "slave %d sees awid/awlen/wlast/arid/arlen = %r, the owners (write: master %d, read: master %d) drive %r" % (
+                        j, see, gw, gr, want)
+        return None
+
 # ---------------------------------------------------------------------------------------------------------
 # wishbone InterconnectShared / Crossbar
 
@@ -225,8 +277,9 @@ class WbSharedInst(Base):
     """n masters x k slaves; slave j answers iff adr >> sh == j (slots >= k are unmapped).
     letter: per master cyc stb adr ; per slave ack err dat_r
     outs  : per slave cyc stb adr ; per master ack err dat_r ; [shared: error grant]"""
-    def __init__(self, n, k, t, dw=8, sh=1, reg=False, kind="shared", alphabet=None, m_aws=None):
+    def __init__(self, n, k, t, dw=8, sh=1, reg=False, kind="shared", alphabet=None, m_aws=None, soc_init=None):
         """t: cycles (int or float, as users pass it), None (no timeout) or "default" (argument omitted: 1e6).
+        soc_init: not None = with the SoCController error counter attached as SoC.finalize does (preloaded).
         m_aws: per-master adr widths (default sh + 2 everywhere): the shared bus is sized by the widest master."""
         aw = sh + 2
         self.m_aws = list(m_aws) if m_aws else [aw] * n
@@ -260,9 +313,20 @@ class WbSharedInst(Base):
         if kind == "shared":
             outs += [_error_sig(m, t), m.arbiter.rr.grant]
             q += [None, None]
+        self.soc_init = soc_init
+        top = m
+        if soc_init is not None:
+            assert kind == "shared" and dw < 32
+            top = _SocGlue(m)
+            outs += [top.ctrl._bus_errors.status]
+            q += [None]
+            self.name += "+SoCController(bus_errors=%#x)" % soc_init
+            self.lean_open = "wbsoc %d %d %d %s %d %d %d" % (n, k, int(reg), tt, dw, sh, soc_init)
         self.qual = q
         self.alphabet = alphabet or []
-        self._finish(m, ins, outs)
+        self._finish(top, ins, outs)
+        if soc_init is not None:
+            _preload_counter(self.netlist, soc_init)
 
     def nontrivial(self, letter, outs):
         n, k = self.n, self.k
@@ -274,7 +338,16 @@ class WbSharedInst(Base):
     def make_monitor(self):
         if self.kind != "shared" or self.t is None:
             return NullMonitor()
-        return WbMonitor(self.n, self.k, self.t, self.dw, self.sh, self.reg)
+        mon = WbMonitor(self.n, self.k, self.t, self.dw, self.sh, self.reg)
+        if self.soc_init is None:
+            return mon
+        seen = [0]
+
+        def events():
+            d = mon.stats["timeouts"] - seen[0]
+            seen[0] = mon.stats["timeouts"]
+            return d
+        return SocMonitor(mon, 3 * self.n + 3 * self.k, 3 * self.k + 3 * self.n + 2, self.soc_init, events)
 
 
 class NullMonitor:
@@ -525,9 +598,14 @@ class AxSharedInst(Base):
                per slave arr rv rresp rdata rlast
        outs  : per slave awv awa wv br ; per master awr wr bv bresp ; per slave arv ara rr ;
                per master arr rv rresp rdata rlast ; error grant_w grant_r"""
-    def __init__(self, full, n, k, t, dw=8, sh=4, alphabet=None, tag="", kind="shared", m_aws=None):
+    def __init__(self, full, n, k, t, dw=8, sh=4, alphabet=None, tag="", kind="shared", m_aws=None, soc_init=None,
+                 idw=2):
+        """soc_init: not None = with the SoCController error counter attached as SoC.finalize does (preloaded) and
+        with the pass-through payload (AXI: ids of `idw` bits, len, w.last) in letter and outputs (`axsoc`)."""
         self.full, self.n, self.k, self.t, self.dw, self.sh, self.kind = full, n, k, t, dw, sh, kind
         I = axi_full.AXIInterface if full else axi_lite.AXILiteInterface
+        if soc_init is not None and full:
+            I = lambda **kw: axi_full.AXIInterface(id_width=idw, **kw)
         aw = sh + 2
         self.m_aws = list(m_aws) if m_aws else [aw] * n
         if m_aws:
@@ -572,9 +650,36 @@ class AxSharedInst(Base):
             q += [None, None, b + 1, b + 1, b + 1]
         if kind == "shared":
             q += [None, None, None]
+        self.soc_init = soc_init
+        top = m
+        if soc_init is not None:
+            assert kind == "shared" and dw < 32 and t is not None
+            top = _SocGlue(m)
+            self.pay_dummies = []
+
+            def psig(port, ch, nm, bits):
+                if full:
+                    return getattr(getattr(port, ch), nm)
+                d = Signal(bits)                       # AXI-Lite has no such signal: unconnected harness input,
+                self.pay_dummies.append(d)             # the outputs read 0 (as the model says for full = false)
+                return d
+            ins += [s for p in ms for s in (psig(p, "aw", "id", idw), psig(p, "aw", "len", 8), psig(p, "w", "last", 1),
+                                            psig(p, "ar", "id", idw), psig(p, "ar", "len", 8))]
+            ins += [s for p in ss for s in (psig(p, "b", "id", idw), psig(p, "r", "id", idw))]
+            if full:
+                outs += [s for p in ss for s in (p.aw.id, p.aw.len, p.w.last, p.ar.id, p.ar.len)]
+                outs += [s for p in ms for s in (p.b.id, p.r.id)]
+            else:
+                outs += [None] * (5 * k + 2 * n)
+            outs += [top.ctrl._bus_errors.status]
+            q += [None] * (5 * k + 2 * n + 1)
+            self.name += "+SoCController(bus_errors=%#x)+payload" % soc_init
+            self.lean_open = "axsoc %d %d %d %d %d %d %d" % (int(full), n, k, t, dw, sh, soc_init)
         self.qual = q
         self.alphabet = alphabet or []
-        self._finish(m, ins, outs)
+        self._finish(top, ins, outs)
+        if soc_init is not None:
+            _preload_counter(self.netlist, soc_init)
 
     def nontrivial(self, letter, outs):
         n, k = self.n, self.k
@@ -584,12 +689,40 @@ class AxSharedInst(Base):
         return w or r
 
     def make_env(self, rng):
-        return AxEnv(self, rng)
+        if self.soc_init is None:
+            return AxEnv(self, rng)
+        inner, inst = AxEnv(self, rng), self
+
+        class Env:
+            """control letter of AxEnv + random payload (ids of the slaves too: a silent slave drives anything)"""
+            def letter(self, rng, c, last):
+                base = inner.letter(rng, c, last)
+                if not inst.full:
+                    return base + (0,) * (5 * inst.n + 2 * inst.k)
+                pay = []
+                for _ in range(inst.n):
+                    pay += [rng.getrandbits(2), rng.choice((0, 0, 1, 3, 255)), rng.getrandbits(1), rng.getrandbits(2),
+                            rng.choice((0, 0, 1, 3, 255))]
+                for _ in range(inst.k):
+                    pay += [rng.getrandbits(2) if rng.random() < 0.5 else 0, rng.getrandbits(2) if rng.random() < 0.5 else 0]
+                return base + tuple(pay)
+        return Env()
 
     def make_monitor(self):
         if self.t is None or self.kind != "shared":
             return NullMonitor()
-        return AxMonitor(self.n, self.k, self.t, self.dw, self.sh, self.full)
+        mon = AxMonitor(self.n, self.k, self.t, self.dw, self.sh, self.full)
+        if self.soc_init is None:
+            return mon
+        seen = [0, 0]
+
+        def events():
+            dw_, dr_ = mon.w.stats["timeouts"] - seen[0], mon.r.stats["timeouts"] - seen[1]
+            seen[0], seen[1] = mon.w.stats["timeouts"], mon.r.stats["timeouts"]
+            return 1 if (dw_ or dr_) else 0          # one pulse per cycle: `error = wr_error | rd_error`
+        n, k = self.n, self.k
+        return SocMonitor(mon, 7 * n + 9 * k, 9 * n + 7 * k + 3, self.soc_init, events,
+                          pay=(n, k) if self.full else None)
 
 
 def ax_alphabet(n, k, sh, direction, full, m_parts=None, s_parts=None):
@@ -611,6 +744,28 @@ def ax_alphabet(n, k, sh, direction, full, m_parts=None, s_parts=None):
     zw = (0,) * (4 * n + 4 * k)
     return [zw + tuple(itertools.chain.from_iterable(c))
             for c in itertools.product(*([m_parts] * n + [s_parts] * k))]
+
+
+def ax_soc_alphabet(n, k, sh, full):
+    """Both directions active at once (simultaneous write and read expiry is the corner of `error = wr_error |
+    rd_error`), payload (ids, len, last) toggled together; AXI-Lite: payload 0."""
+    mparts = [((0, 0, 0, 1), (0, 0, 1), (0, 0, 0, 0, 0)), ((1, 0, 1, 1), (1, 0, 1), (3, 1, 1, 2, 3)),
+              ((1, k << sh, 1, 0), (0, 0, 1), (1, 255, 0, 0, 0)), ((0, 0, 0, 1), (1, k << sh, 0), (0, 0, 1, 1, 7))]
+    sparts = [((0, 0, 0, 0), (0, 0, 0, 0, 0), (0, 0)), ((1, 1, 0, 0), (1, 0, 0, 0, 0), (1, 2)),
+              ((0, 0, 1, 1), (0, 1, 1, 0x5a, 1), (3, 1))]
+    if n * k > 1:
+        mparts, sparts = mparts[:3], (sparts if n == 1 else sparts[:2])
+    out = []
+    for combo in itertools.product(*([mparts] * n + [sparts] * k)):
+        ms, ss = combo[:n], combo[n:]
+        l = [v for m in ms for v in m[0]] + [v for s_ in ss for v in s_[0]] + \
+            [v for m in ms for v in m[1]] + [v for s_ in ss for v in s_[1]]
+        if full:
+            l += [v for m in ms for v in m[2]] + [v for s_ in ss for v in s_[2]]
+        else:
+            l += [0] * (5 * n + 2 * k)
+        out.append(tuple(l))
+    return out
 
 
 class AxEnv:
@@ -1556,3 +1711,44 @@ def probe_accumulated_stalls(t=4):
     return bool(hits), "timeout_cycles=%d, back-to-back writes, per-beat stalls <= %d: %s; read side (back-to-back ARs): %s; " \
         "wishbone (stb held across acks): %s" % (t, t - 2, "; ".join(hits) if hits else "no error",
                                                  "error" if rd_err else "no error", "error" if wb_err else "no error")
+
+
+def _both_directions_silent(t, awid=3, arid=2, arlen=3, init=0, cycles=None):
+    """AXIInterconnectShared 1x1 + SoCController (glue as in SoC.finalize): the master issues a write (id `awid`, 2
+    beats) and a read (id `arid`, `arlen`+1 beats) in the same cycle to a silent slave that drives id 0.  Returns the
+    per-cycle observations (dicts) and the final bus_errors value."""
+    inst = AxSharedInst(True, 1, 1, t, dw=8, soc_init=init)
+    obs = []
+    aw = w = ar = 1
+    for c in range(cycles or (t + 6)):
+        l = (aw, 0, w, 1, 0, 0, 0, 0, ar, 0, 1, 0, 0, 0, 0, 0, awid, 1, 0, arid, arlen, 0, 0)
+        inst.apply(l)
+        o = inst.sample()
+        d = dict(c=c, awr=o[4], wr=o[5], bv=o[6], bresp=o[7], arr=o[11], rv=o[12], rresp=o[13], rlast=o[15], error=o[16],
+                 bid=o[24], rid=o[25], errs=o[26])
+        obs.append(d)
+        inst.netlist.tick()
+        aw, w, ar = (0 if d["awr"] else aw), (0 if d["wr"] else w), (0 if d["arr"] else ar)
+    inst.apply((0,) * 23)
+    return obs, inst.sample()[26]
+
+
+def probe_simultaneous_expiry(t=3):
+    """Candidate C11-axi-simultaneous-expiry-one-count: write and read time out in the same cycle; both are terminated
+    with SLVERR, `bus_errors` advances by 1 (`error = wr_error | rd_error`, one pulse)."""
+    obs, errs = _both_directions_silent(t)
+    nb = sum(1 for d in obs if d["bv"] and d["bresp"] == 2)
+    nr = sum(1 for d in obs if d["rv"] and d["rresp"] == 2)
+    return (nb + nr) != errs, "AXIInterconnectShared(1x1,timeout=%d)+SoCController: %d forced B + %d forced R responses, " \
+        "bus_errors=%d" % (t, nb, nr, errs)
+
+
+def probe_forced_response_id(t=3):
+    """Candidate C11-axi-forced-response-id: the forced B/R carry the decoder's id mux (0 for a silent slave), not the
+    id of the request; a read burst of arlen+1 beats is answered by one beat with `last`."""
+    obs, _ = _both_directions_silent(t, awid=3, arid=2, arlen=3)
+    b = [d for d in obs if d["bv"]]
+    r = [d for d in obs if d["rv"]]
+    bad = any(d["bid"] != 3 for d in b) or any(d["rid"] != 2 for d in r)
+    return bad, "AXIInterconnectShared(1x1,timeout=%d): write id 3 / read id 2 (arlen 3) to a silent slave: forced B id %s, " \
+        "forced R id %s, %d R beat(s), last=%s" % (t, [d["bid"] for d in b], [d["rid"] for d in r], len(r), [d["rlast"] for d in r])
